@@ -241,7 +241,7 @@ pub fn generate(seed: u64, prof: &GenProfile) -> History {
                 }
                 bel[c].has_snap = bel[c].has_snap || b.len > 0;
                 // snapshot payloads are always tagged so that every upload has distinct bytes
-                let len = if prof.aligned { 24 } else { 16 + rng.usize(120) };
+                let len = if prof.aligned { 24 } else if rng.pct(3) { 300_000 } else { 16 + rng.usize(120) };
                 OpKind::AddSnapshot { vid, pay: PaySpec::new(len, 9, uniq) }
             }
             _ => OpKind::GetSnapshot,
